@@ -38,7 +38,7 @@ CLAIMED = {
     ),
     "C11": (
         "runtime monitor, exhaustive: all 10^6 six-digit strings x 15 date fields, all HHMM and signed offsets x 13C/13D; from-scratch calendar oracle, cross-field agreement, digit reproduction, JSON round trip",
-        "Exhaustive exploration of the finite space the property quantifies over (1,000,000 dates x 15 field types, 10,000 times, 20,000 offsets, non-digit classes at every position), in MT and JSON: accepted iff calendar-valid, the same digits mean the same date in every field, digits are reproduced, from_value(to_value(v)) == v.",
+        "Exhaustive exploration of the finite space the property quantifies over (1,000,000 dates x 15 field types, 10,000 times, 20,000 offsets, non-digit classes at every position), in MT and JSON, plus the date slot of every date-bearing field occurrence of generated messages of every type at message level: accepted iff calendar-valid, the same digits mean the same date in every field, digits are reproduced, from_value(to_value(v)) == v.",
         "Trusted: 20-line Gregorian calendar model. Offset hours 15..23 are not judged (undocumented).",
         "DESIGN.md section 3, C11",
     ),
